@@ -42,25 +42,26 @@ Section NoFailEv.
     exists s', process_blocks_loop cfg cur st junc count idx blocks s acc =
                  (s', acc ++ batch_events st (bref cur) (cursor_lib s) (if matches_undo st then junc else None)
                                          count idx (map eb blocks), true) /\
-               same_but_calls s s'.
+               same_but_calls s s' /\ ncalls s' = ncalls s + N.of_nat (length blocks).
   Proof.
     induction blocks as [|e rest IH]; intros idx s acc.
-    - exists s. cbn [process_blocks_loop map batch_events]. rewrite app_nil_r. repeat split.
+    - exists s. cbn [process_blocks_loop map batch_events length]. rewrite app_nil_r. repeat split. lia.
     - cbn [process_blocks_loop]. rewrite (call_ok cfg Hnofail). cbv beta iota zeta.
       set (s1 := mkFS (db s) (last_sent s) (last_lib_seen s) (ncalls s + 1)).
       destruct (IH (idx + 1) s1 (acc ++ [mkEv st (eb e) (bref (eb e)) (bref cur) (cursor_lib s)
                                              (if matches_undo st then junc else None) idx count]))
-        as (s' & Heq & (H1 & H2 & H3)).
+        as (s' & Heq & (H1 & H2 & H3) & H4).
       exists s'. rewrite Heq, <- app_assoc. cbn [app map batch_events].
       replace (cursor_lib s1) with (cursor_lib s) by reflexivity.
-      split; [reflexivity|]. repeat split; assumption.
+      split; [reflexivity|]. split; [repeat split; assumption|].
+      rewrite H4. unfold s1. cbn [ncalls length]. lia.
   Qed.
 
   Lemma process_blocks_ev cur blocks st junc s :
     exists s', process_blocks cfg cur blocks st junc s =
                  (s', batch_events st (bref cur) (cursor_lib s) (if matches_undo st then junc else None)
                                    (N.of_nat (length blocks)) 0 (map eb blocks), true) /\
-               same_but_calls s s'.
+               same_but_calls s s' /\ ncalls s' = ncalls s + N.of_nat (length blocks).
   Proof.
     unfold process_blocks.
     destruct (process_blocks_loop_ev cur st junc (N.of_nat (length blocks)) blocks 0 s []) as (s' & H & R).
@@ -76,10 +77,11 @@ Section NoFailEv.
       store (db s') = mark_all (store (db s)) (unsent chain) /\
       extra (db s') = extra (db s) /\ libref (db s') = libref (db s) /\
       last_lib_seen s' = last_lib_seen s /\
-      last_sent s' = match rev (unsent chain) with sg :: _ => Some (eb (sent sg)) | [] => last_sent s end.
+      last_sent s' = match rev (unsent chain) with sg :: _ => Some (eb (sent sg)) | [] => last_sent s end /\
+      ncalls s' = ncalls s + N.of_nat (length (unsent chain)).
   Proof.
     induction chain as [|b rest IH]; intros s acc Hrefs.
-    - exists s. cbn [process_new_loop unsent filter map fresh_events]. rewrite app_nil_r. repeat split.
+    - exists s. cbn [process_new_loop unsent filter map fresh_events length]. rewrite app_nil_r. repeat split. lia.
     - inversion Hrefs as [|? ? Hb Hrest]; subst.
       cbn [process_new_loop]. unfold unsent. cbn [filter]. fold (unsent rest).
       destruct (esent (sent b)) eqn:Es; cbn [negb].
@@ -88,11 +90,12 @@ Section NoFailEv.
         set (s1 := mkFS (mkDB (set_sent (sid b) (store (db s))) (extra (db s)) (libref (db s)))
                         (Some (eb (sent b))) (last_lib_seen s) (ncalls s + 1)).
         destruct (IH s1 (acc ++ [mkEv SNew (eb (sent b)) (seg_ref b) head (cursor_lib s) None 0 0]) Hrest)
-          as (s' & Heq & Hst & Hex & Hlib & Hls & Hlast).
+          as (s' & Heq & Hst & Hex & Hlib & Hls & Hlast & Hnc).
         exists s'. rewrite Heq, <- app_assoc. cbn [app map]. unfold fresh_events at 2. cbn [map]. fold (fresh_events head (cursor_lib s)).
         replace (cursor_lib s1) with (cursor_lib s) by reflexivity.
         rewrite Hb. repeat split; try assumption.
-        rewrite Hlast. cbn [rev]. destruct (rev (unsent rest)) as [|sg t] eqn:R; cbn [app]; reflexivity.
+        * rewrite Hlast. cbn [rev]. destruct (rev (unsent rest)) as [|sg t] eqn:R; cbn [app]; reflexivity.
+        * rewrite Hnc. unfold s1. cbn [ncalls length]. lia.
   Qed.
 End NoFailEv.
 
@@ -221,18 +224,19 @@ Section FixedLibEv.
       store (db s3) = mark_all (store (db s1)) (unsent longest) /\
       extra (db s3) = extra (db s1) /\ libref (db s3) = libref (db s1) /\
       last_sent s3 = match rev (unsent longest) with sg :: _ => Some (eb (sent sg)) | [] => last_sent s1 end /\
-      last_lib_seen s3 = r0.
+      last_lib_seen s3 = r0 /\
+      ncalls s3 = ncalls s1 + N.of_nat (length undos) + N.of_nat (length redos) + N.of_nat (length (unsent longest)).
   Proof.
     intros Hl Hseen Hne Hrefs Hhead Htail. unfold process_tail. rewrite Hundo, Hnew.
-    destruct (process_blocks_ev cfg Hnofail b undos SUndo junc s1) as (sa & -> & (Ha1 & Ha2 & Ha3)).
+    destruct (process_blocks_ev cfg Hnofail b undos SUndo junc s1) as (sa & -> & (Ha1 & Ha2 & Ha3) & Ha4).
     cbn [negb matches_undo].
-    destruct (process_blocks_ev cfg Hnofail b redos SNew None sa) as (sb & -> & (Hb1 & Hb2 & Hb3)).
+    destruct (process_blocks_ev cfg Hnofail b redos SNew None sa) as (sb & -> & (Hb1 & Hb2 & Hb3) & Hb4).
     cbn [negb matches_undo].
     unfold process_new_blocks. destruct longest as [|b0 lrest] eqn:Hlong; [congruence|]. rewrite <- Hlong in *.
     destruct (process_new_loop_ev cfg Hnofail Hnew (seg_ref (last longest b0)) longest sb [] Hrefs) as
-      (s3 & Hrun & Hst & Hex & Hlib & Hlls & Hlast).
+      (s3 & Hrun & Hst & Hex & Hlib & Hlls & Hlast & Hnc).
     cbn [app] in Hrun. rewrite Hlong in Hrun at 1. rewrite <- Hlong in Hrun. rewrite Hrun. cbn [negb].
-    rewrite Hb1, Ha1 in Hst, Hex, Hlib. rewrite Hb2, Ha2 in Hlast. rewrite Hb3, Ha3 in Hlls.
+    rewrite Hb1, Ha1 in Hst, Hex, Hlib. rewrite Hb2, Ha2 in Hlast. rewrite Hb3, Ha3 in Hlls. rewrite Hb4, Ha4 in Hnc.
     assert (Hc1 : cursor_lib s1 = r0) by (apply cursor_lib_r0; exact Hseen).
     assert (Hca : cursor_lib sa = r0) by (apply cursor_lib_r0; congruence).
     assert (Hcb : cursor_lib sb = r0) by (apply cursor_lib_r0; congruence).
@@ -298,7 +302,7 @@ Section FixedLibEv.
     assert (Hun : filter (fun e => negb (esent e)) q = Ru ++ [en]).
     { unfold q. rewrite HP, HR, !filter_app, (filter_unsent_nil C HC), <- filter_app, F2. reflexivity. }
     destruct (process_tail_ev s1 b (rev Uh) (filter esent R) junc (map seg_of q)) as
-      (s3 & Hrun & Hst & Hex & Hlr & Hls & Hlls).
+      (s3 & Hrun & Hst & Hex & Hlr & Hls & Hlls & _).
     - exact Hl.
     - exact Hseen.
     - unfold q. destruct pP; discriminate.
@@ -323,6 +327,52 @@ Section FixedLibEv.
       split; [exact HR|]. split.
       + unfold tail_events. rewrite rev_length, map_rev, HR, F1, unsent_map, Hun, map_sent_seg_of. reflexivity.
       + split; [exact Hrun|]. split; [exact Happ|]. split; [exact HI3|]. split; [exact Hk3 | exact Hlls].
+  Qed.
+
+
+  (* the declared LIB of every block sent in a triggering step, and of the previous head, resolves to
+     the LIB itself in the marked store: the hypothesis of process_tail_ev *)
+  Lemma tail_hyp s1 S b pP :
+    Inv s1 S -> In b U ->
+    chain (store (db s1)) (bid b) (ri r0) (pP ++ [mkEntry b false]) ->
+    forall d ls, store d = mark_all (store (db s1)) (unsent (map seg_of (pP ++ [mkEntry b false]))) ->
+      extra d = extra (db s1) -> libref d = libref (db s1) ->
+      In ls (map (fun sg => eb (sent sg)) (unsent (map seg_of (pP ++ [mkEntry b false])))) \/ last_sent s1 = Some ls ->
+      block_in_chain d (bref ls) (blib ls) = Some (mkR (ri r0) (rn r0)).
+  Proof.
+    intros HI Hb Hc d ls Hd He Hlb Hin.
+    pose proof HI as [Hnd HU Hl Hlc Hh].
+    set (en := mkEntry b false) in *. set (q := pP ++ [en]) in *.
+    assert (Hq : forall e, In e q -> In e (store (db s1))) by (intros e He'; eapply chain_in; eassumption).
+    assert (Hld : lib_db d) by (destruct Hl as [A B]; split; congruence).
+    destruct Hin as [Hin|Hold].
+    + rewrite unsent_map, map_map in Hin. apply in_map_iff in Hin as (e & <- & Hin). cbn [sent seg_of].
+      apply filter_In in Hin as [Hin _].
+      rewrite (L_lib (eb e) (HU e (Hq e Hin))).
+      apply in_split in Hin as (q1 & q2 & Heq). rewrite Heq in Hc.
+      eapply (bic_marked U r0 cfg U_id U_up L_id L_num L_up _ q d _ q1 e Hnd HU Hq Hld Hd). eapply chain_prefix. exact Hc.
+    + rewrite Hold in Hh. destruct Hh as (HhU & pH & HcH & Hne & _ & _).
+      rewrite (L_lib ls HhU).
+      destruct pH as [|eh pH'] using rev_ind; [congruence|]. clear IHpH'.
+      destruct (chain_snoc_inv _ _ _ _ _ HcH) as (_ & Hfh & _).
+      rewrite <- (stored_is_self U U_uniq _ _ _ HU HhU Hfh).
+      eapply (bic_marked U r0 cfg U_id U_up L_id L_num L_up _ q d _ pH' eh Hnd HU Hq Hld Hd). exact HcH.
+  Qed.
+
+  (* a non-empty ReversibleSegment of a stored new block is its chain down to the LIB *)
+  Lemma longest_shape d b longest reach : lib_db d ->
+    find (bid b) (store d) = Some (mkEntry b false) ->
+    rs_loop (fuel_of d) d first (bid b) (bnum b) [] = Some (longest, reach) -> longest <> [] ->
+    exists pP, chain (store d) (bid b) (ri r0) (pP ++ [mkEntry b false]) /\ longest = map seg_of (pP ++ [mkEntry b false]).
+  Proof.
+    intros Hl1 Hfb Hrs Hlong. destruct reach.
+    - destruct (chain_of_rs r0 cfg d (bid b) (mkEntry b false) longest Hl1 Hfb) as (p & Hc & Hp).
+      { unfold reversible_segment. cbn [ri rn eb]. exact Hrs. }
+      destruct p as [|e' p'] using rev_ind.
+      + subst longest. exfalso. apply Hlong. reflexivity.
+      + clear IHp'. destruct (chain_snoc_inv _ _ _ _ _ Hc) as (_ & Hf' & _). rewrite Hfb in Hf'. injection Hf' as <-.
+        exists p'. auto.
+    - apply (rs_false_nil cfg d (has_lib_r0 r0 L_id _ Hl1)) in Hrs. congruence.
   Qed.
 
   (* ---------------------------------------------------------------- one ProcessBlock call, events exposed *)
